@@ -65,7 +65,10 @@ type obsJ struct {
 
 type childOut struct {
 	Obs []obsJ `json:"obs"`
-	Err string `json:"err,omitempty"`
+	// per operation index: keepTasks was asked and the environment was in a state from which
+	// DestroyEnvironment honours it (oracle bit for the model)
+	Keep map[int]bool `json:"keep,omitempty"`
+	Err  string       `json:"err,omitempty"`
 }
 
 const fidKey = "o2/runtime/aliecs/mesos_fid"
@@ -138,6 +141,7 @@ type runner struct {
 	deaf       map[string]bool // tasks whose KILL gets no answer
 	deafAll    bool
 	started    map[int]bool
+	keepEff    map[int]bool // per operation index: keepTasks asked and honoured
 	runMu      sync.Mutex
 	pendingRun map[string]bool // launched tasks whose TASK_RUNNING has not been sent yet
 	failNote   string
@@ -352,7 +356,12 @@ func (r *runner) apply(i int, op opJ) error {
 		}
 	case "destroy":
 		if id, ok := r.envs[op.E]; ok {
-			_, _ = r.s.Rpc.DestroyEnvironment(bg, &pb.DestroyEnvironmentRequest{Id: id.String(), AllowInRunningState: true, KeepTasks: op.Keep})
+			// Whether keepTasks is honoured is decided by the environment FSM and the RPC layer (a
+			// teardown that has to be forced ignores it), neither of which the C18 model contains:
+			// the bit is read off the reply (no CleanupTasksReply = the keepTasks return was taken)
+			// and handed to the model as an oracle.
+			rep, _ := r.s.Rpc.DestroyEnvironment(bg, &pb.DestroyEnvironmentRequest{Id: id.String(), AllowInRunningState: true, KeepTasks: op.Keep})
+			r.keepEff[i] = op.Keep && rep != nil && rep.CleanupTasksReply == nil
 			delete(r.envs, op.E)
 		}
 	case "stuck":
@@ -500,7 +509,7 @@ func runScript(in inputJ, workdir string) (out childOut) {
 	if !in.Failover {
 		fo = "0s"
 	}
-	r := &runner{rec: rec, taskIdx: map[string]int{}, envs: map[int]uid.ID{}, deaf: map[string]bool{}, started: map[int]bool{}, pendingRun: map[string]bool{}}
+	r := &runner{rec: rec, taskIdx: map[string]int{}, envs: map[int]uid.ID{}, deaf: map[string]bool{}, started: map[int]bool{}, keepEff: map[int]bool{}, pendingRun: map[string]bool{}}
 	s, err := simcore.New(simcore.Options{
 		Plugins:     map[string]integration.NewFunc{"verif": vplugin.New(rec)},
 		WorkDir:     workdir,
@@ -561,6 +570,7 @@ func runScript(in inputJ, workdir string) (out childOut) {
 	}
 	// the first life has subscribed inside New
 	out.Obs = append(out.Obs, r.observe())
+	out.Keep = r.keepEff
 	for i, op := range in.Ops {
 		if err := r.apply(i, op); err != nil {
 			out.Err = fmt.Sprintf("op %d (%s): %v", i, op.Op, err)
@@ -573,14 +583,14 @@ func runScript(in inputJ, workdir string) (out childOut) {
 
 // ---------------------------------------------------------------- Coq terms
 
-func opTerm(o opJ) string {
+func opTerm(o opJ, keepEff bool) string {
 	switch o.Op {
 	case "create":
 		return fmt.Sprintf("OCreate %d", o.K)
 	case "start":
 		return fmt.Sprintf("OStart %d", o.E)
 	case "destroy":
-		return fmt.Sprintf("ODestroy %d %s", o.E, gen.Bool(o.Keep))
+		return fmt.Sprintf("ODestroy %d %s", o.E, gen.Bool(keepEff))
 	case "stuck":
 		return fmt.Sprintf("ODestroyStuck %d", o.E)
 	case "die":
@@ -631,10 +641,11 @@ func obsTerm(o obsJ) string {
 	return fmt.Sprintf("(mkObs %s %d %s %s %s %d %s)", gen.List(subs), o.Rec, intList(o.Kills), intList(o.Alive), gen.List(ros), o.Envs, st)
 }
 
-func caseTerm(in inputJ, obs []obsJ) string {
+func caseTerm(in inputJ, out childOut) string {
+	obs := out.Obs
 	ops := make([]string, len(in.Ops))
 	for i, o := range in.Ops {
-		ops[i] = opTerm(o)
+		ops[i] = opTerm(o, out.Keep[i])
 	}
 	os_ := make([]string, len(obs))
 	for i, o := range obs {
@@ -813,7 +824,7 @@ func main() {
 			fmt.Printf("%-40s %s\n", name, b)
 		}
 		fmt.Println("err:", out.Err)
-		fmt.Println(caseTerm(in, out.Obs))
+		fmt.Println(caseTerm(in, out))
 		os.Exit(0)
 	}
 	if len(os.Args) >= 3 && os.Args[1] == "-child" {
@@ -896,7 +907,7 @@ func main() {
 			}
 			opHist[n]++
 		}
-		cases = append(cases, gen.Case{Term: caseTerm(in, outs[i].Obs), Kind: kinds[i], Input: in, Obs: outs[i]})
+		cases = append(cases, gen.Case{Term: caseTerm(in, outs[i]), Kind: kinds[i], Input: in, Obs: outs[i]})
 	}
 	extra := map[string]any{"operations": opHist, "cases_that_did_not_run": failed}
 	if err := gen.WriteCases(o, "C18", "From Verif Require Import Common Reconcile.", "c18_case", "report18", cases, extra); err != nil {
